@@ -34,6 +34,7 @@ Inductive label :=
 | LClockPause | LClockResume | LClockScale
 | LSaveCond (b : bool) | LSaveCondRaise | LSaveB | LSaveE | LSaveRaise
 | LInterrupt
+| LUptime (reached : bool)     (* the control tick's uptime check (an oracle here; its arithmetic is C08's) *)
 | LLaunchDone (raised : bool)   (* launch() is over: it returned, or it raised *)
 | LOther.     (* bookkeeping marks of the harness (http answers, component save marks): no effect *)
 
@@ -344,10 +345,8 @@ Definition ctl_step (s : st) (l : label) : option st :=
       if Nat.eqb k j && Bool.eqb b (ex s j) then
         Some (ctl s (if S k =? n then (if any || b then CShut0 KAfterPoll else CAfterPoll) else CPoll (S k) (any || b)))
       else None
-  (* after the polls: the uptime limit (an oracle) may start a shutdown; otherwise the loop delay *)
-  | CAfterPoll, LClockResume =>
-      Some (set_misc s (CShut1 KAfterUptime) false false (saving s) (running s) (craised s) (shut s) (queue s))
-  | CAfterPoll, LSleep => Some (ctl s (if running s then CTickCond else CShut0 KFinally))
+  (* after the polls: the uptime check may start a shutdown; then the loop delay *)
+  | CAfterPoll, LUptime b => Some (ctl s (if b then CShut0 KAfterUptime else CAfterUptime))
   | CAfterUptime, LSleep => Some (ctl s (if running s then CTickCond else CShut0 KFinally))
   (* save_state *)
   | CSave0 k, LIsSet ERes b => if Bool.eqb b (res s) then Some (ctl s (CTp0 (Some (negb b)) k)) else None
